@@ -23,17 +23,19 @@ PLAN = dict(
     tiers=dict(
         quick=[det("rel", H, "cs-rel", 16, 600, 5, tso=True, time_cap=22),
                det("dbg", H, "cs-dbg", 16, 250, 5, tso=True, time_cap=14),
+               cmd("sequential-model", "harness/c1012_seqmodel_rc.cpp", "plain", 2, ["C12", "12000"], link_tbb=True, ldflags=["-lrapidcheck"], replay_tag="seqmodel-"),
                tsan("C12", 8, 240)],
         thorough=[det("rel", H, "cs-rel", 16, 6000, 6, tso=True, time_cap=280),
                   det("dbg", H, "cs-dbg", 16, 2000, 6, tso=True, time_cap=160),
                   det("enum-conflict", H, "cs-rel", 16, 200, 2, tso=True, time_cap=90, enum="conflict", enum_cap=200),
                   det("enum-firstpc", H, "cs-rel", 16, 200, 2, tso=True, time_cap=90, enum="firstpc", enum_cap=200),
+                  cmd("sequential-model", "harness/c1012_seqmodel_rc.cpp", "plain", 8, ["C12", "400000"], link_tbb=True, ldflags=["-lrapidcheck"], replay_tag="seqmodel-"),
                tsan("C12", 16, 600)],
     ),
 )
 TEXT = dict(
     technique="property-based testing: generated insert/lookup/traversal programs x generated schedules over the real split-ordered list and skip list (controlled scheduler, SC+TSO) "
-              "against an element ledger with unique ids: winner-per-key, presence-monotonic lookups, exact traversal contents and order, quiescent audits",
+              "against an element ledger with unique ids: winner-per-key, presence-monotonic lookups, exact traversal contents and order, quiescent audits; plus rapidcheck model-based testing of long single-threaded operation sequences on concurrent_unordered_map and concurrent_map (rehash, clear, copy, assignment, swap, merge, bounds) against std::map",
     level_text="Exploration: tens of thousands of small generated programs on all eight associative containers; every element carries a unique id inside its key, so that equal keys, "
                "transient duplicates and an element missing from one traversal are visible. Checked per case: insert results against the returned iterator; exactly one successful insert per "
                "key in unique containers and every failed insert pointing at the winner; find/contains/count/equal_range/lower_bound/upper_bound against the set of elements known present "
